@@ -1022,6 +1022,18 @@ def w_terms(case, led):
                 if ok:
                     led.check(uni.den(out).same(uni.den(flat)), f"post:{fn}:den", fn, f"check_operator_terms({src}) denotes another operator",
                               key + ("den",), fields, rep, nt)
+                # the checked terms are the model's own: a later in-place extension of the caller's container (`h += v`, `.append`) must not reach them - also
+                # when nothing had to be ravelled or dropped
+                led.check(out is not lst and not any(out is t for t in lst if isinstance(t, list)), f"post:{fn}:result_is_a_new_container", fn,
+                          f"check_operator_terms({src}) handed back the caller's own container: extending it later changes the terms of the model", key + ("fresh",),
+                          fields, rep, not nt)
+                if ok and isinstance(lst, list) and want:
+                    n0 = len(out)
+                    sig0 = [A.sig(t) for t in out]
+                    lst.append(want[0])
+                    led.check(len(out) == n0 and [A.sig(t) for t in out] == sig0, f"frame:{fn}:result_independent_of_later_changes_of_the_argument", fn,
+                              f"after appending to the argument of check_operator_terms({src}) the checked terms changed as well", key + ("alias",), fields, rep, not nt)
+                    lst.pop()
             if idx in ((6, 1, 11), (8, 0)) and uname == "pauli1":
                 led.samples.append({"universe": uname, "call": f"Model(...).check_operator_terms({src})", "raised": repr(raised), "result": repr(out),
                                     "contract": "ValueError iff an item is not an Op/OpSum or has an unknown DoF; else the ravelled list without zero-factor terms"})
